@@ -3,6 +3,7 @@
 from __future__ import annotations
 
 import ast
+import re
 
 from sa.core import inlined_src, canon_locals, canon_src, AnalysisError, Report, loc, norm_src
 from sa.consteval import ev, NOTIMPL, NameRef, Opaque
@@ -673,28 +674,19 @@ def check_make_ref(r, repo):
         )
     if n < 3:
         raise AnalysisError("make_ref: fewer return paths than expected")
-    # toidentifier: names of unregistered constants are derived from the value; the encoding must not merge values
-    ti = repo.func(rel, "toidentifier")
-    n_complex = 0
-    for node in ast.walk(ti):
-        if isinstance(node, ast.If) and isinstance(node.test, ast.Call) and dotted(node.test.func) == "isinstance" and len(node.test.args) == 2:
-            ty = norm_src(node.test.args[1])
-            rets = [x for st in node.body for x in ast.walk(st) if isinstance(x, ast.Return)]
-            if "complex" in ty:
-                n_complex += 1
-                for rt in rets:
-                    attrs = {x.attr for x in ast.walk(rt) if isinstance(x, ast.Attribute) and dotted(x.value) == "value"}
-                    ok = {"real", "imag"} <= attrs
-                    r.ob("R5.9", f"expr.py::toidentifier {ty} branch encodes both parts", ok,
-                         f"`{norm_src(rt)}` reads only {sorted(attrs)} of a complex value: constants differing in the other part get the same "
-                         "generated name and, being unregistered, the same variable", loc(rel, rt))
-            elif "float" in ty or "floating" in ty:
-                body_src = " ".join(norm_src(st) for st in node.body)
-                ok = "copysign" in body_src or "signbit" in body_src
-                r.ob("R5.9", f"expr.py::toidentifier {ty} branch distinguishes -0.0", ok,
-                     "the identifier of a float constant is derived from `value == int(value)`, which merges 0.0 and -0.0", loc(rel, node))
-    if n_complex < 2:
-        raise AnalysisError("toidentifier: complex branches not found")
+    check_toidentifier(r, repo, "R5.9")
+    # generated names must not be normalised lossily afterwards (the name is the printers' only key for "same value")
+    mr = repo.func(rel, "make_ref")
+    hits = lossy_name_transforms(mr)
+    for node, what in hits:
+        r.ob("R5.9", f"expr.py::make_ref lossy normalisation of a generated name ({what})", False,
+             f"`{norm_src(node)}`: a generated reference name is passed through `{what}`, which maps different names to one (e.g. collapsing `__` "
+             "makes `subtract__x_0__y`, the name of subtract(_x_0_, y), equal to `subtract_x_0_y`, the name of subtract(x_0, y)); the names are "
+             "not registered, so both expressions share one variable in the emitted code", loc(rel, node))
+    probe = ast.parse("def make_ref(expr):\n    ref = '_'.join(lst).replace('__', '_')\n    return ref[:40]\n").body[0]
+    if len(lossy_name_transforms(probe)) != 2:
+        raise AnalysisError("R5.9: the lossy-normalisation detector does not recognise its positive example")
+    r.ob("R5.9", "expr.py::make_ref applies no lossy normalisation to generated names", not hits, "", loc(rel, mr))
     # _register_reference: the key that is stored is the key that was just looked up and found free
     rr = repo.func("context.py", "Context._register_reference")
     stores = 0
@@ -788,6 +780,89 @@ def _stored_key_was_free(p, i_store, keyname):
 
 
 # --------------------------------------------------------------------------- main
+
+
+LOSSY_STR_METHODS = {"replace", "strip", "lstrip", "rstrip", "lower", "upper", "casefold", "title", "capitalize", "translate", "removeprefix",
+                     "removesuffix", "split", "rsplit", "partition", "rpartition", "expandtabs"}
+
+
+def lossy_name_transforms(func):
+    """string operations inside `func` that are not injective, applied to a value that flows into a returned / registered name"""
+    out = []
+    for n in ast.walk(func):
+        if isinstance(n, ast.Call) and isinstance(n.func, ast.Attribute) and n.func.attr in LOSSY_STR_METHODS:
+            # only string receivers: a join, an f-string, a name bound to one of them, or `ref`-like locals
+            recv = n.func.value
+            if isinstance(recv, (ast.JoinedStr, ast.Constant)) or (isinstance(recv, ast.Call) and isinstance(recv.func, ast.Attribute) and recv.func.attr == "join") \
+                    or isinstance(recv, (ast.Name, ast.Call, ast.Subscript)):
+                out.append((n, f".{n.func.attr}()"))
+        elif isinstance(n, ast.Subscript) and isinstance(n.slice, ast.Slice) and isinstance(n.ctx, ast.Load):
+            # truncation of a name
+            if isinstance(n.value, (ast.Name, ast.JoinedStr)) or (isinstance(n.value, ast.Call) and isinstance(n.value.func, ast.Attribute) and n.value.func.attr == "join"):
+                out.append((n, "slicing"))
+    return out
+
+
+def check_toidentifier(r, repo, rule):
+    """toidentifier must not merge distinct constant values (shared by C05 R5.9 and, when the hash-consing key uses it, C07 R7.1)"""
+    rel = "expr.py"
+    # toidentifier: names of unregistered constants are derived from the value; the encoding must not merge values
+    ti = repo.func(rel, "toidentifier")
+    n_complex = 0
+    for node in ast.walk(ti):
+        if isinstance(node, ast.If) and isinstance(node.test, ast.Call) and dotted(node.test.func) == "isinstance" and len(node.test.args) == 2:
+            ty = norm_src(node.test.args[1])
+            rets = [x for st in node.body for x in ast.walk(st) if isinstance(x, ast.Return)]
+            if "complex" in ty:
+                n_complex += 1
+                for rt in rets:
+                    attrs = {x.attr for x in ast.walk(rt) if isinstance(x, ast.Attribute) and dotted(x.value) == "value"}
+                    ok = {"real", "imag"} <= attrs
+                    r.ob(rule, f"expr.py::toidentifier {ty} branch encodes both parts", ok,
+                         f"`{norm_src(rt)}` reads only {sorted(attrs)} of a complex value: constants differing in the other part get the same "
+                         "generated name and, being unregistered, the same variable", loc(rel, rt))
+            elif "float" in ty or "floating" in ty:
+                body_src = " ".join(norm_src(st) for st in node.body)
+                ok = "copysign" in body_src or "signbit" in body_src
+                r.ob(rule, f"expr.py::toidentifier {ty} branch distinguishes -0.0", ok,
+                     "the identifier of a float constant is derived from `value == int(value)`, which merges 0.0 and -0.0", loc(rel, node))
+    if n_complex < 2:
+        raise AnalysisError("toidentifier: complex branches not found")
+    # pieces of variable width joined without a separator do not determine the pieces: hex(0x01) + hex(0x10) == hex(0x11) + hex(0x00)
+    VARW = {"hex", "str", "oct", "bin", "repr"}
+    n_join = 0
+    for node in ast.walk(ti):
+        if isinstance(node, ast.Call) and isinstance(node.func, ast.Attribute) and node.func.attr == "join" and isinstance(node.func.value, ast.Constant) \
+                and node.func.value.value == "" and node.args:
+            n_join += 1
+            a = node.args[0]
+            piece = None
+            if isinstance(a, ast.Call) and dotted(a.func) == "map" and a.args:
+                piece = dotted(a.args[0])
+                fixed = False
+            elif isinstance(a, (ast.GeneratorExp, ast.ListComp)):
+                e_ = a.elt
+                if isinstance(e_, ast.Call) and dotted(e_.func) in VARW:
+                    piece, fixed = dotted(e_.func), False
+                elif isinstance(e_, ast.JoinedStr):
+                    fv = [v for v in e_.values if isinstance(v, ast.FormattedValue)]
+                    specs = ["".join(str(c.value) for c in v.format_spec.values if isinstance(c, ast.Constant)) if v.format_spec is not None else "" for v in fv]
+                    fixed = bool(fv) and all(re.fullmatch(r"0\d+[xXdobB]", sp or "") for sp in specs)
+                    piece = "f-string " + "/".join(specs)
+                elif isinstance(e_, ast.Call) and dotted(e_.func) == "format" and len(e_.args) == 2 and isinstance(e_.args[1], ast.Constant):
+                    fixed = bool(re.fullmatch(r"0\d+[xXdobB]", str(e_.args[1].value)))
+                    piece = f"format {e_.args[1].value}"
+                else:
+                    piece, fixed = norm_src(e_), False
+            else:
+                piece, fixed = norm_src(a), False
+            # a later global replace of the "0x" markers does not restore the piece boundaries
+            r.ob(rule, "expr.py::toidentifier byte-wise encoding has fixed-width pieces", fixed,
+                 f"`{norm_src(node)}` concatenates pieces of variable width ({piece}) without a separator: the bytes 01 10 and 11 00 both give "
+                 "'110', so distinct numpy float constants get the same generated name and, being unregistered, the same variable in the emitted code",
+                 loc(rel, node))
+    if n_join < 1:
+        raise AnalysisError("toidentifier: the byte-wise encoding of numpy floats was not found")
 
 
 def run(repo, tier):
